@@ -6,6 +6,7 @@ import io_words
 import size_branches
 import dead_reads
 import derived
+import reader_extra
 import json, os
 from vlib.core import VERIF
 
@@ -40,6 +41,10 @@ def run(facts, tier):
     obs += o
     rules.append({"rule": "io-words", "instances": len([x for x in o if x["status"] != "info"]), "min": 28,
                   "text": "every linear layout a writer can emit (fixed runs, raw / serde / nested parts, loops) is one of the layouts the corresponding reader consumes, for the stream and the byte forms"})
+    o = reader_extra.narrow_image_arith(facts)
+    obs += o
+    rules.append({"rule": "narrow image arithmetic", "instances": len(o), "min": 1,
+                  "text": "no 32-bit image field is shifted / multiplied in 32 bits and only then widened to 64 bits in a reader (valid large images would come back with a wrapped capacity)"})
     o = derived.obligations(facts)
     obs += o
     rules.append({"rule": "derived fields", "instances": len(o), "min": 18,
